@@ -155,7 +155,7 @@ fn k_sha1_process_equals_fips() {
     kani::cover!(true, "reachable");
 }
 
-//@unit props=C10,C12 label=P tier=thorough fn=sha1::Sha1State::process
+//@unit props=C10,C12 label=P tier=parked fn=sha1::Sha1State::process
 //@desc the compression function equals the FIPS 180-4 textbook compression (80 rounds, big-endian words, standard schedule) for every state and every 64-byte block
 #[kani::proof]
 #[kani::unwind(82)]
@@ -170,7 +170,7 @@ fn k_sha1_process_equals_fips_kissat() {
     kani::cover!(true, "reachable");
 }
 
-//@unit props=C10,C12 label=P tier=thorough fn=sha1::Sha1State::process
+//@unit props=C10,C12 label=P tier=parked fn=sha1::Sha1State::process
 //@desc the compression function equals the FIPS 180-4 textbook compression (80 rounds, big-endian words, standard schedule) for every state and every 64-byte block
 #[kani::proof]
 #[kani::unwind(82)]
